@@ -25,23 +25,34 @@ from ..leanclient import hx  # noqa: F401  (kept for symmetry with other modules
 TRANSLATORS = []
 
 MANIFEST = {
-    "text": "Proof: Tls.Order.step/run (hand-written Lean model of the receive automaton induced by the _getMsg call sequence of "
-            "_handshakeClientAsyncHelper/_clientTLS13Handshake/_handshakeServerAsyncHelper/_serverTLS13Handshake/_getFinished plus "
-            "_getMsg's own gate: content type, handshake type, TLS1.3 CCS tolerance, record-boundary alignment, key epochs, "
-            "renegotiation refusal) is proved, for every valid configuration (role x version family x key exchange x client auth x "
-            "tickets x NPN x HRR x resumption x compressed certificates), to accept to completion only traces of the separately "
-            "written RFC grammar Tls.Order.allowed, except for the spelled-out NewSessionTicket exceptions which are proved as "
-            "counterexample theorems and demonstrated on the real code; every non-enabled message from every state aborts with a "
-            "fatal alert and zero delivered bytes, application data is never enabled before completion, and after completion no "
-            "input re-enters the handshake (renegotiation_refused, handshakeStart_open_raises). Tie: single (quick) and double "
-            "(thorough) deviations of honest traces replayed to live endpoints through a peer with an edited send path, verdicts "
-            "compared with the automaton; independent Python RFC grammar as direct oracle.",
-    "note": "Trusted: Lean kernel, the hand extraction of the automaton from the flow code (sampled by the correspondence), the "
-            "lab. Not modelled: message contents (signatures, verify_data, extensions), fragmentation/coalescing other than the "
-            "TLS 1.3 record-boundary rule, heartbeat negotiation, early data, post-handshake authentication, SSLv2 hello framing "
-            "beyond the first message, TACK.",
-    "technique": "Lean 4 proof over an explicit finite enumeration (decide) + inductions for the cycles; differential "
-                 "correspondence automaton vs live endpoints under edited peer traces; RFC grammar oracle",
+    "text": "Proof: Tls.Order.step/feed/run/hsRun (hand-written Lean model of the receive automaton induced by the _getMsg call "
+            "sequence of _handshakeClientAsyncHelper/_clientGetServerHello/_clientKeyExchange/_clientTLS13Handshake/"
+            "_handshakeServerAsyncHelper/_serverGetClientHello/_serverCertKeyExchange/_serverTLS13Handshake/_getFinished/readAsync plus "
+            "_getMsg's own gate: content type, handshake type, TLS 1.3 CCS tolerance while _middlebox_compat_mode, record-boundary "
+            "alignment, key epochs incl. the unprotected-alert window, heartbeat, renegotiation refusal) is proved, for all 744 "
+            "negotiable configurations (role x version family x key exchange x client auth x client cert x tickets x NPN x HRR x "
+            "resumption x compressed certificates x heartbeat x compat) and message sequences of ANY length, to reach _handshakeDone "
+            "only on sequences of the separately written RFC grammar Tls.Order.allowed (accepted_in_grammar, full strength: generic "
+            "induction checkFrom_sound over the only cycles = dropped transparent records, plus one kernel evaluation of the bounded "
+            "exploration per role x version family); every message from every handshake position is accepted in order, dropped as a "
+            "transparent record, or ends the connection with a fatal alert / the peer's alert (deviation_aborts_before_data), "
+            "application data is never enabled before completion and never delivered without it, the first deviation is final "
+            "(first_deviation_is_final, no_data_before_completion); after completion no input re-enters the handshake, the attempt is "
+            "answered by a no_renegotiation warning (<=1.2) or fatal unexpected_message (1.3) and _handshakeStart raises "
+            "(renegotiation_refused, renegotiation_attempt_answer, handshakeStart_open_raises); four regression theorems pin the "
+            "order defects this check found (server took a client NewSessionTicket, server dropped a mid-handshake ClientHello, "
+            "client NewSessionTicket leniency both ways). Tie: single (quick) and additionally double (thorough) deviations of "
+            "honest traces replayed to live endpoints through a real peer with an edited send path; verdict, alert, position, "
+            "messages handed out, read epoch and delivered bytes compared with the automaton; Lean grammar vs independent Python "
+            "grammar compared on every received sequence.",
+    "note": "Trusted: Lean kernel (axioms propext, Classical.choice, Quot.sound), the hand extraction of the automaton from the "
+            "flow code (its fidelity is what the correspondence samples: it caught three concurrent code changes while being "
+            "built), the lab, the Python RFC grammar. Not modelled: message contents (signatures, verify_data, extensions; a "
+            "foreign-content message the automaton accepts ends the exact comparison there), fragmentation / the TLS 1.3 "
+            "interleaving rule, early data, post-handshake authentication, heartbeat policy other than peer_allowed_to_send, "
+            "SSLv2-framed ClientHello, TACK, DTLS. A record under foreign keys is compared as a class (never proceeds).",
+    "technique": "Lean 4 proof: generic induction + kernel-evaluated bounded exploration over an explicit enumeration; "
+                 "differential correspondence automaton vs live endpoints under edited peer traces; RFC grammar oracle",
 }
 
 VERS = {"ssl3": (3, 0), "tls10": (3, 1), "tls11": (3, 2), "tls12": (3, 3), "tls13": (3, 4)}
@@ -960,7 +971,8 @@ def bank_for(ver):
 INSERT_KINDS = ["hello_request", "client_hello", "server_hello", "hrr", "certificate", "compressed_certificate",
                 "server_key_exchange", "certificate_request", "server_hello_done", "client_key_exchange",
                 "certificate_verify", "ccs", "finished", "new_session_ticket", "next_protocol", "encrypted_extensions",
-                "end_of_early_data", "key_update", "app_data", "empty_app_data", "alert_warning", "heartbeat"]
+                "end_of_early_data", "key_update", "app_data", "empty_app_data", "alert_warning", "heartbeat",
+                "no_certificate_alert"]
 CORE_KINDS = ["ccs", "finished", "app_data", "hello_request", "client_hello", "server_hello_done", "key_update",
               "new_session_ticket", "certificate_request", "certificate_verify", "heartbeat"]
 
@@ -990,10 +1002,16 @@ def single_deviations(orig, kinds_at, replace_at=None):
 
 def targeted_deviations(orig, victim):
     """deviations aimed at the renegotiation branch of _getMsg: a hello the peer does not put into
-    its own transcript (what an on-path injector of a plaintext record achieves)"""
+    its own transcript (what an on-path injector of a plaintext record achieves); and the SSLv3
+    no_certificate warning in place of the client Certificate (accepted by an SSLv3 server only)"""
     k = "client_hello" if victim == "server" else "hello_request"
     devs = [[("nohash_insert", j, k)] for j in range(1, len(orig) + 1)]
     devs.append([("nohash_insert", len(orig) - 2, k), ("nohash_insert", len(orig) - 2, k)] if len(orig) >= 2 else [])
+    if victim == "server" and "certificate" in orig:
+        j = orig.index("certificate")
+        devs.append([("replace", j, "no_certificate_alert")])
+        if "certificate_verify" in orig:
+            devs.append([("replace", j, "no_certificate_alert"), ("skip", orig.index("certificate_verify"))])
     return [d for d in devs if d]
 
 
@@ -1257,7 +1275,7 @@ def run(ctx):
                        "RFC grammar oracle: harness/props/c06.py:rfc_regex (NewSessionTicket iff session_ticket extension, RFC 5077 3.3)"]
     rng = ctx.rng
     thorough = ctx.thorough()
-    budget = 1150.0 if thorough else 105.0
+    budget = 1150.0 if thorough else 150.0
     t0 = time.time()
     pending = []
     scns = sorted(all_scenarios(), key=lambda sm: not sm[1])      # main configurations first
@@ -1303,7 +1321,7 @@ def run(ctx):
                        [[("swap", j)] for j in range(n - 1)]
                 for _ in range(6):
                     devs.append([(rng.choice(["insert", "replace"]), rng.randrange(n), rng.choice(INSERT_KINDS))])
-                devs += targeted_deviations(orig, victim)[-2:]
+                devs += targeted_deviations(orig, victim)[-3:]
             for edits in devs:
                 kw = prime(scn) if scn.get("res") else {}
                 evaluate(ctx, pending, scn, victim, edits, bank, kw)
